@@ -31,6 +31,15 @@ reg("C17", "exploration",
     "Trusts pysam for writing BAMs and the GTF parser of the harness; reads are synthetic alignments.",
     "property-based testing (Hypothesis) with output-recount oracle; stateful two-step history", "DESIGN.md section 4 C17")
 
+reg("C19", "exploration",
+    "Exhaustive enumeration of every sorted interval list (and pair of lists) over a small universe plus Hypothesis "
+    "random large instances, each compared with a set-of-positions reference model; profile constructors checked "
+    "three-valued (MUST present / MUST absent / unspecified). Exhaustive for the bounded universe, sampled beyond it.",
+    "Semantics taken from docstrings and callers; features no longer than delta and read gaps no longer than delta are "
+    "outside the domain (see DESIGN.md section 8).",
+    "exhaustive small-universe enumeration + property-based testing (Hypothesis) against a reference model",
+    "DESIGN.md section 4 C19")
+
 NOT_YET = "check not built yet in this session (see DESIGN.md section 6a build order)"
 
 
